@@ -293,3 +293,114 @@ func (m *Matcher) matchListFrom(ps, ns []*Tree, pi, ni int, env *Env) (*Env, boo
 	}
 	return m.matchListFrom(ps, ns, pi+1, ni+1, e2)
 }
+
+// MatchAll is Match with complete backtracking: k is called with every way
+// (in the order Match would try them: shortest runs first, left to right,
+// depth first) in which n is an instance of p, until k returns true. Where
+// Match commits to the first way a nested list matches, MatchAll comes back
+// to that list for another way when something later (a repeated
+// metavariable, usually) does not fit. It is the definition of "instance" in
+// the property statements taken literally: some assignment of code to the
+// metavariables and of runs to the elisions exists.
+func (m *Matcher) MatchAll(p, n *Tree, env *Env, k func(*Env) bool) bool {
+	m.Steps++
+	if m.Steps > 2_000_000 {
+		return false
+	}
+	if name, ok := p.IsIdent(); ok {
+		if kind, isHole := m.Holes[name]; isHole {
+			if e2, ok := m.matchHole(name, kind, n, env); ok {
+				return k(e2)
+			}
+			return false
+		}
+	}
+	if p.Kind != n.Kind {
+		if (p.Kind == KNil && n.Kind == KList && len(n.Kids) == 0) || (n.Kind == KNil && p.Kind == KList && len(p.Kids) == 0) {
+			return k(env)
+		}
+		return false
+	}
+	switch p.Kind {
+	case KNil:
+		return k(env)
+	case KLeaf:
+		if p.RT == n.RT && p.Leaf == n.Leaf {
+			return k(env)
+		}
+		return false
+	case KNode:
+		if id, ok := forDotsID(p); ok {
+			if n.RT != forStmtPtr && n.RT != rangeStmtPtr {
+				return false
+			}
+			return m.MatchAll(p.Field("Body"), n.Field("Body"), env.with(3, id, n, nil), k)
+		}
+		if p.RT != n.RT {
+			return false
+		}
+		return m.matchKidsAll(p.Kids, n.Kids, 0, env, k)
+	case KList:
+		hasDots := false
+		for _, x := range p.Kids {
+			if _, ok := elemDotsID(x); ok {
+				hasDots = true
+				break
+			}
+		}
+		if !hasDots {
+			if len(p.Kids) != len(n.Kids) {
+				return false
+			}
+			return m.matchKidsAll(p.Kids, n.Kids, 0, env, k)
+		}
+		return m.matchListAll(p.Kids, n.Kids, 0, 0, env, k)
+	}
+	return false
+}
+
+func (m *Matcher) matchKidsAll(ps, ns []*Tree, i int, env *Env, k func(*Env) bool) bool {
+	if i == len(ps) {
+		return k(env)
+	}
+	return m.MatchAll(ps[i], ns[i], env, func(e *Env) bool {
+		return m.matchKidsAll(ps, ns, i+1, e, k)
+	})
+}
+
+func (m *Matcher) matchListAll(ps, ns []*Tree, pi, ni int, env *Env, k func(*Env) bool) bool {
+	m.Steps++
+	if m.Steps > 2_000_000 {
+		return false
+	}
+	if pi == len(ps) {
+		if ni == len(ns) {
+			return k(env)
+		}
+		return false
+	}
+	if id, ok := elemDotsID(ps[pi]); ok {
+		for take := 0; ni+take <= len(ns); take++ {
+			if m.matchListAll(ps, ns, pi+1, ni+take, env.with(2, id, nil, ns[ni:ni+take]), k) {
+				return true
+			}
+		}
+		return false
+	}
+	if ni >= len(ns) {
+		return false
+	}
+	return m.MatchAll(ps[pi], ns[ni], env, func(e *Env) bool {
+		return m.matchListAll(ps, ns, pi+1, ni+1, e, k)
+	})
+}
+
+// MatchComplete returns the first complete way in which n is an instance of
+// p, and whether the committed search of Match finds one too.
+func (m *Matcher) MatchComplete(p, n *Tree, env *Env) (found *Env, ok, greedyToo bool) {
+	if e, g := m.Match(p, n, env); g {
+		return e, true, true
+	}
+	ok = m.MatchAll(p, n, env, func(e *Env) bool { found = e; return true })
+	return found, ok, false
+}
